@@ -18,6 +18,7 @@ import (
 	vesttypes "github.com/chain4energy/c4e-chain/x/cfevesting/types"
 	sdk "github.com/cosmos/cosmos-sdk/types"
 	authtypes "github.com/cosmos/cosmos-sdk/x/auth/types"
+	banktypes "github.com/cosmos/cosmos-sdk/x/bank/types"
 	vestingtypes "github.com/cosmos/cosmos-sdk/x/auth/vesting/types"
 	stakingtypes "github.com/cosmos/cosmos-sdk/x/staking/types"
 )
@@ -598,6 +599,15 @@ func runVestCase(ta *TestApp, seed uint64, idx int, rep *Report, profile string)
 	}
 
 	nOps := 6 + rng.Intn(18)
+	// a scripted opening in part of the split-profile cases: one vesting account delegates most of what it holds, time passes until
+	// more is delegated than is still vesting, then it splits / moves — the bookkeeping of delegated coins must not be touched
+	script, scriptStep := -1, 0
+	if profile == "split" && rng.Chance(35) {
+		if cs := cvas(); len(cs) > 0 {
+			script = cs[rng.Intn(len(cs))]
+			rep.Count("script.delegate_wait_then_move")
+		}
+	}
 	var opTerms []string
 	var wantSecondWithdraw int = -1
 	nontrivial := false
@@ -617,6 +627,12 @@ func runVestCase(ta *TestApp, seed uint64, idx int, rep *Report, profile string)
 		choice := rng.Pick(wts...)
 		if wantSecondWithdraw >= 0 {
 			choice = 2
+		}
+		scripted := -1
+		if script >= 0 && scriptStep < 3 {
+			scripted = scriptStep
+			choice = []int{8, 0, 5 + rng.Intn(3)}[scriptStep]
+			scriptStep++
 		}
 		switch choice {
 		case 0: // time
@@ -647,7 +663,11 @@ func runVestCase(ta *TestApp, seed uint64, idx int, rep *Report, profile string)
 				}
 			}
 			ends = near
-			if len(ends) > 0 && rng.Chance(65) {
+			if cva, isCva := app.AccountKeeper.GetAccount(ctx, e.addrs[max0(script)]).(*vestingtypes.ContinuousVestingAccount); scripted == 1 && isCva && cva.EndTime > now.Unix()+2 {
+				// 50% .. 97% of what is left of the scripted account's schedule
+				left := cva.EndTime - now.Unix()
+				nt = now.Add(time.Duration(left/2+rng.I64n(left*47/100+1)) * time.Second)
+			} else if len(ends) > 0 && rng.Chance(65) {
 				en := ends[rng.Intn(len(ends))]
 				switch rng.Intn(4) {
 				case 0:
@@ -843,7 +863,9 @@ func runVestCase(ta *TestApp, seed uint64, idx int, rep *Report, profile string)
 				}}
 		case 5: // split
 			var from int
-			if cs := cvas(); len(cs) > 0 && rng.Chance(92) {
+			if scripted == 2 {
+				from = script
+			} else if cs := cvas(); len(cs) > 0 && rng.Chance(92) {
 				from = cs[rng.Intn(len(cs))]
 			} else {
 				from = pickAddr(baseIds, []int{-1}, absentIds)
@@ -894,7 +916,9 @@ func runVestCase(ta *TestApp, seed uint64, idx int, rep *Report, profile string)
 				}}
 		case 6: // move all
 			var from int
-			if cs := cvas(); len(cs) > 0 && rng.Chance(90) {
+			if scripted == 2 {
+				from = script
+			} else if cs := cvas(); len(cs) > 0 && rng.Chance(90) {
 				from = cs[rng.Intn(len(cs))]
 			} else {
 				from = pickAddr(baseIds, []int{-1})
@@ -913,7 +937,9 @@ func runVestCase(ta *TestApp, seed uint64, idx int, rep *Report, profile string)
 				}}
 		case 7: // move by denoms
 			var from int
-			if cs := cvas(); len(cs) > 0 && rng.Chance(90) {
+			if scripted == 2 {
+				from = script
+			} else if cs := cvas(); len(cs) > 0 && rng.Chance(90) {
 				from = cs[rng.Intn(len(cs))]
 			} else {
 				from = pickAddr(baseIds, []int{-1})
@@ -947,7 +973,9 @@ func runVestCase(ta *TestApp, seed uint64, idx int, rep *Report, profile string)
 				}}
 		default: // delegate
 			var a int
-			if cs := cvas(); len(cs) > 0 && rng.Chance(85) {
+			if scripted == 0 {
+				a = script
+			} else if cs := cvas(); len(cs) > 0 && rng.Chance(85) {
 				a = cs[rng.Intn(len(cs))]
 			} else {
 				a = pickAddr(baseIds)
@@ -957,7 +985,10 @@ func runVestCase(ta *TestApp, seed uint64, idx int, rep *Report, profile string)
 				balv = lim // x/staking converts bonded tokens to int64 consensus power: keep delegations far below 2^63 * 10^6
 			}
 			amt := rng.BigBelow(new(big.Int).Add(balv, bi(1)))
-			switch rng.Intn(6) {
+			if scripted == 0 { // most of the balance
+				amt = new(big.Int).Sub(balv, rng.BigBelow(new(big.Int).Add(new(big.Int).Quo(balv, bi(4)), bi(1))))
+			}
+			switch rng.Intn(6) + b2iInt(scripted == 0)*10 {
 			case 0:
 				amt = new(big.Int).Set(balv)
 			case 1:
@@ -1014,7 +1045,15 @@ func runVestCase(ta *TestApp, seed uint64, idx int, rep *Report, profile string)
 		} else {
 			rep.Count("res.err." + op.kind)
 		}
-		e.predicates(ctx, &op, pre, res)
+		func() {
+			defer func() {
+				if r := recover(); r != nil {
+					// the observation code met a state no sequence of these messages should produce: that is itself a finding for this step
+					rep.Panics = append(rep.Panics, fmt.Sprintf("case %d step %d %s: the state after the operation is inconsistent with what was stored before it (%v)", idx, s, op.term, r))
+				}
+			}()
+			e.predicates(ctx, &op, pre, res)
+		}()
 		// between two operations: a governance attempt to change the vesting denomination while pools are stored. Pools do not
 		// record their denomination, so an accepted change would strand what they lock; it must be refused and change nothing
 		// (nothing changes on the unchanged tree, so the model needs no operation for it)
@@ -1060,6 +1099,34 @@ func runVestCase(ta *TestApp, seed uint64, idx int, rep *Report, profile string)
 		obs := append(res.outTerm(), e.observe(ctx)...)
 		opTerms = append(opTerms, "("+op.term+", "+zListB(obs)+")")
 		rep.Ops++
+	}
+	// ---- epilogue on a dropped branch (not part of the model comparison): the bank's per-denomination send switch.  With one
+	// denomination switched off, a move of OTHER, selected denominations still goes through (and leaves nothing of them locked), and a
+	// split of the switched-off denomination is refused and changes nothing.
+	if multi {
+		ec, _ := ctx.CacheContext()
+		for _, id := range cvas() {
+			lc := app.BankKeeper.LockedCoins(ec, e.addrs[id])
+			if len(lc) < 2 {
+				continue
+			}
+			off, sel := lc[len(lc)-1].Denom, lc[0].Denom
+			bp := app.BankKeeper.GetParams(ec)
+			bp.SendEnabled = append(bp.SendEnabled, &banktypes.SendEnabled{Denom: off, Enabled: false})
+			app.BankKeeper.SetParams(ec, bp)
+			fresh := func() string { return sdk.AccAddress(rng.Bytes(20)).String() }
+			spendable := app.BankKeeper.SpendableCoins(ec, e.addrs[id])
+			_, err1 := e.ms.SplitVesting(sdk.WrapSDKContext(ec), &vesttypes.MsgSplitVesting{FromAddress: e.addrs[id].String(), ToAddress: fresh(), Amount: sdk.NewCoins(sdk.NewCoin(off, sdk.OneInt()))})
+			rep.Eval("C07.split_of_a_send_disabled_denomination_is_refused", err1 != nil && app.BankKeeper.LockedCoins(ec, e.addrs[id]).IsEqual(lc), idx, nOps,
+				fmt.Sprintf("split of 1%s by address %d while sending %s is switched off: err=%v", off, id, off, err1))
+			_, err2 := e.ms.MoveAvailableVestingByDenoms(sdk.WrapSDKContext(ec), &vesttypes.MsgMoveAvailableVestingByDenoms{FromAddress: e.addrs[id].String(), ToAddress: fresh(), Denoms: []string{sel}})
+			after := app.BankKeeper.LockedCoins(ec, e.addrs[id])
+			rep.Eval("C07.move_of_selected_denominations_ignores_the_send_switch_of_others", err2 == nil && after.AmountOf(sel).IsZero() && after.AmountOf(off).Equal(lc.AmountOf(off)) &&
+				app.BankKeeper.SpendableCoins(ec, e.addrs[id]).IsEqual(spendable), idx, nOps,
+				fmt.Sprintf("address %d locks %s; sending %s is switched off; moving %s: err=%v, locked afterwards %s", id, lc, off, sel, err2, after))
+			rep.Count("epilogue.send_switch")
+			break
+		}
 	}
 	rep.NoteCase(strings.Join(opTermsShort(opTerms), ";"), nontrivial)
 	if len(rep.Samples) < 3 {
@@ -1152,6 +1219,25 @@ func (e *vestEnv) predicates(ctx sdk.Context, op *vestOp, pre *vestSnap, res opR
 	}
 	if msg, broken := vestkeeper.NonNegativeVestingPoolAmountsInvariant(app.CfevestingKeeper)(ctx); true {
 		rep.Eval("C05.nonnegative_invariant", !broken, c, st, msg)
+	}
+	// ---- C06 / C05: no message removes a stored pool (the module never deletes pool records: what a pool still locks would otherwise
+	// stay in the module account with nothing withdrawable standing for it)
+	{
+		okKept, detail := true, ""
+		for id, avp := range pre.pools {
+			have := map[string]bool{}
+			for _, p := range post.pools[id].VestingPools {
+				have[p.Name] = true
+			}
+			for _, p := range avp.VestingPools {
+				if !have[p.Name] {
+					okKept = false
+					detail = fmt.Sprintf("%s: pool %q of address %d (locking %s) is no longer stored", op.term, p.Name, id, p.GetCurrentlyLocked())
+				}
+			}
+		}
+		rep.Eval("C06.stored_pools_are_never_dropped", okKept, c, st, detail)
+		rep.Eval("C05.stored_pools_are_never_dropped", okKept, c, st, detail)
 	}
 	// ---- C06: in every state the pool query reports nothing withdrawable for a pool whose lock end lies ahead, and exactly the
 	// still-locked remainder for a matured one
@@ -1284,6 +1370,10 @@ func (e *vestEnv) predicates(ctx sdk.Context, op *vestOp, pre *vestSnap, res opR
 		okLocked, okMatured := true, true
 		expect := bi(0)
 		for i, p := range pre.pools[op.owner].VestingPools {
+			if i >= len(post.pools[op.owner].VestingPools) {
+				okMatured = false // a stored pool disappeared (also judged by stored_pools_are_never_dropped)
+				break
+			}
 			p2 := post.pools[op.owner].VestingPools[i]
 			if pre.now.Before(p.LockEnd) {
 				if !p2.Withdrawn.Equal(p.Withdrawn) || !p2.Sent.Equal(p.Sent) || !p2.InitiallyLocked.Equal(p.InitiallyLocked) {
@@ -1311,7 +1401,7 @@ func (e *vestEnv) predicates(ctx sdk.Context, op *vestOp, pre *vestSnap, res opR
 		rep.Eval("C08.recipient_gets_amount", gotBal.Cmp(op.amount) == 0, c, st, fmt.Sprintf("got %v want %v", gotBal, op.amount))
 		var pp, pq *vesttypes.VestingPool
 		for i, p := range pre.pools[op.owner].VestingPools {
-			if p.Name == e.poolName(op.name) {
+			if p.Name == e.poolName(op.name) && i < len(post.pools[op.owner].VestingPools) {
 				pp, pq = p, post.pools[op.owner].VestingPools[i]
 			}
 		}
@@ -1453,6 +1543,9 @@ func (e *vestEnv) checkWithdrawEvents(op *vestOp, pre, post *vestSnap, res opRes
 	var want []pa
 	tot := bi(0)
 	for i, p := range pre.pools[op.owner].VestingPools {
+		if i >= len(post.pools[op.owner].VestingPools) {
+			break // a stored pool disappeared: judged by stored_pools_are_never_dropped
+		}
 		d := post.pools[op.owner].VestingPools[i].Withdrawn.Sub(p.Withdrawn).BigInt()
 		if d.Sign() > 0 {
 			want = append(want, pa{parseName(p.Name, "pool"), d})
@@ -1524,3 +1617,17 @@ func (e *vestEnv) checkSummary(ctx sdk.Context) {
 }
 
 var _ = sort.Ints
+
+func max0(i int) int {
+	if i < 0 {
+		return 0
+	}
+	return i
+}
+
+func b2iInt(b bool) int {
+	if b {
+		return 1
+	}
+	return 0
+}
